@@ -1178,6 +1178,7 @@ func (l *Listener) packetInput(data []byte, addr net.Addr) {
 	case *aeadCrypt:
 		nonceSize := block.NonceSize()
 		if len(data) < nonceSize+block.Overhead() {
+			verifEv("l.in", l, 1, 0, 0)
 			return
 		}
 
@@ -1187,6 +1188,7 @@ func (l *Listener) packetInput(data []byte, addr net.Addr) {
 		plaintext, err := block.Open(ciphertext[:0], nonce, ciphertext, nil)
 		if err != nil {
 			atomic.AddUint64(&DefaultSnmp.InCsumErrors, 1)
+			verifEv("l.in", l, 2, 0, 0)
 			return
 		}
 
@@ -1194,6 +1196,7 @@ func (l *Listener) packetInput(data []byte, addr net.Addr) {
 	default:
 		// decryption and crc32 check
 		if len(data) < cryptHeaderSize {
+			verifEv("l.in", l, 1, 0, 0)
 			return
 		}
 
@@ -1203,6 +1206,7 @@ func (l *Listener) packetInput(data []byte, addr net.Addr) {
 		checksum := crc32.ChecksumIEEE(data[crcSize:])
 		if checksum != binary.LittleEndian.Uint32(data) {
 			atomic.AddUint64(&DefaultSnmp.InCsumErrors, 1)
+			verifEv("l.in", l, 2, 0, 0)
 			return
 		}
 
@@ -1212,6 +1216,7 @@ func (l *Listener) packetInput(data []byte, addr net.Addr) {
 	// basic check for minimum packet size
 	// NOTE: OOB allows sending small packets and even empty packets.
 	if len(data) < min(IKCP_OVERHEAD, fecHeaderSizePlus2+convSize) {
+		verifEv("l.in", l, 3, 0, 0)
 		return
 	}
 
@@ -1247,6 +1252,7 @@ func (l *Listener) packetInput(data []byte, addr net.Addr) {
 	default:
 		// packet without FEC
 		if len(data) < IKCP_OVERHEAD { // basic check for minimum kcp packet size
+			verifEv("l.in", l, 4, 0, 0)
 			return
 		}
 		hasConv = true
@@ -1259,13 +1265,16 @@ func (l *Listener) packetInput(data []byte, addr net.Addr) {
 		// If we have a valid conversation id or we cannot get conversation id from the packet,
 		// just feed the data into the existing session.
 		if !hasConv || conv == s.kcp.conv {
+			verifEv("l.in", l, 5, int64(conv), verifB(hasConv))
 			s.kcpInput(data)
 			return
 		}
 		// conversation id mismatched, only accept reset packet with sn == 0
 		if sn != 0 {
+			verifEv("l.in", l, 6, int64(conv), 0)
 			return
 		}
+		verifEv("l.in", l, 7, int64(conv), 0)
 		// Close will remove the session from listener's session map,
 		// So we can create a new session with the same addr below.
 		s.Close()
@@ -1274,12 +1283,14 @@ func (l *Listener) packetInput(data []byte, addr net.Addr) {
 	// The connection does not exist, try to create a new one.
 	// But if we don't have a valid conversation id, nothing we can do here except dropping the packet.
 	if !hasConv {
+		verifEv("l.in", l, 8, 0, 0)
 		return
 	}
 
 	// Now we have a valid conversation id here without a session object, create a new session.
 	// do not let the new sessions overwhelm accept queue
 	if len(l.chAccepts) >= cap(l.chAccepts) {
+		verifEv("l.in", l, 9, int64(conv), 0)
 		return
 	}
 
@@ -1290,6 +1301,7 @@ func (l *Listener) packetInput(data []byte, addr net.Addr) {
 	l.sessions[addr.String()] = s
 	l.sessionLock.Unlock()
 	l.chAccepts <- s
+	verifEv("l.in", l, 10, int64(conv), 0)
 }
 
 func (l *Listener) notifyReadError(err error) {
